@@ -49,6 +49,7 @@ fn('linear._RidgeRegression.fit', props='C02 C06 C20',
    params={'X': 'mat', 'y': 'rseq'},
    requires=['INV.shape', 'rows(X) == slen(y)'],
    raises=['ValueError'],          # feature-count mismatch surfaces as a NumPy shape error
+   raises_iff='cols(X) != cols(self.A)',
    raises_modifies=['self.scaler.state'],    # _Linear._fit_arm works on a private copy of the model (C17)
    modifies=['self.A', 'self.A_inv', 'self.Xty', 'self.beta', 'self.scaler.state'],
    # C02: incremental normal equations  A += X'X,  Xty += X'y,  beta = A^-1 Xty
@@ -83,3 +84,126 @@ fn('linear._LinTS.predict', props='C02 C09 C10',
             'vdot(row(%s, i), row(%s, i))))' % (XP, SAMPLES),
             '[C10,ts.stream] rngstate(self.rng) == next_mvn(%s, self.beta, %s, rows(x))' % (S0, COV)],
    result='rseq')
+
+
+# ------------------------------------------------------------------------------------------ _Linear
+def _linear_setup(run, st, ref):
+    """arm_to_model: one regression object per arm, of the class chosen by `regression`; their generators are the
+    bandit's generator or private copies (symbolic per arm)."""
+    o = st.heap[ref.loc]
+    reg = o.fields['regression'].s
+    cls = {'ts': '_LinTS', 'ucb': '_LinUCB', 'ridge': '_RidgeRegression'}[reg]
+    m = run.eng.record_map(run, st, 'self_arm_to_model', cls, shared_rng=o.fields['rng'].loc)
+    st.heap[ref.loc] = o.set('arm_to_model', m)
+
+
+def MV(f, a='a'):
+    return 'val(self.arm_to_model, %s, "%s")' % (a, f)
+
+
+MODEL_SHAPE = ('slen(%s) == self.num_features and rows(%s) == self.num_features and cols(%s) == self.num_features and '
+               'rows(%s) == self.num_features and cols(%s) == self.num_features and slen(%s) == self.num_features'
+               % (MV('beta'), MV('A'), MV('A'), MV('A_inv'), MV('A_inv'), MV('Xty')))
+klass('_Linear',
+      fields={'alpha': 'real const', 'epsilon': 'real const', 'l2_lambda': 'real const',
+              'regression': 'str:{ts|ucb|ridge} const', 'scale': 'bool const', 'num_features': 'opt:int'},
+      setup=_linear_setup,
+      inv=['[C08,keys.model] keys(self.arm_to_model) == keys(self.arm_to_expectation)',
+           '[C02,keys.lambda] self.l2_lambda > 0 and self.alpha >= 0',
+           '[C02,cfg.model] ' + forall_arms('%s == self.l2_lambda and %s == self.alpha and %s == self.scale'
+                                            % (MV('l2_lambda'), MV('alpha'), MV('scale'))),
+           # once fitted, every model is initialised for the current number of features
+           '[C02,shape.model] is_none(self.num_features) or (self.num_features >= 1 and %s)' % forall_arms(MODEL_SHAPE),
+           '[C02,shape.scaler] is_none(self.num_features) or ' +
+           forall_arms('is_none(%s) == (not self.scale)' % MV('scaler'))])
+
+fn('linear._Linear.__init__', props='C02 C04 C08', inline=True,
+   params={**INIT_PARAMS, 'alpha': 'real', 'epsilon': 'real', 'l2_lambda': 'real', 'regression': 'str:{ts|ucb|ridge}',
+           'scale': 'bool'},
+   requires=['distinct(arms)', 'n_jobs != 0', 'l2_lambda > 0', 'alpha >= 0'],
+   modifies=['self.**'],
+   ensures=['[alias.arms] same(self.arms, arms)', '[alias.rng] same(self.rng, rng)', 'is_none(self.num_features)', 'INV',
+            '[C04,C07,rng.shared] ' + forall_arms(MV('#rng_shared'))])
+
+SELX = 'selrows(contexts, decisions, arm)'
+SELY = 'sel(rewards, decisions, arm)'
+# the scaler a model ends up with after being fit on rows X, and the rows as the regression then sees them
+SCA = ('scaler_fix(scaler_partial_fit(old(%s), %s) if scaler_fitted(old(%s)) else scaler_fit(%s))'
+       % (MV('scaler', 'arm'), SELX, MV('scaler', 'arm'), SELX))
+XSA = '(%s if not self.scale else scaler_transform(%s, %s))' % (SELX, SCA, SELX)
+OWN = lambda t: t.replace('val(self.arm_to_model, a,', 'val(self.arm_to_model, arm,')     # noqa: E731
+FITTED_REQ = ['INV.keys', 'INV.arms', 'not is_none(self.num_features)', 'self.num_features >= 1',
+              'rows(contexts) == slen(decisions)', 'slen(decisions) == slen(rewards)',
+              # the model of this arm (the other arms' models may be in the middle of their own update)
+              OWN('%s == self.l2_lambda and %s == self.alpha and %s == self.scale'
+                  % (MV('l2_lambda'), MV('alpha'), MV('scale'))),
+              OWN(MODEL_SHAPE), OWN('is_none(%s) == (not self.scale)' % MV('scaler'))]
+fn('linear._Linear._fit_arm', props='C02 C05 C06 C17 C20',
+   params={'arm': 'arm', 'decisions': 'aseq', 'rewards': 'rseq', 'contexts': 'mat'},
+   requires=FITTED_REQ + ['mem(self.arms, arm)'],
+   raises=['ValueError'],                    # wrong number of feature columns: nothing has been published yet (C17)
+   raises_iff='cnt(decisions, arm) > 0 and cols(contexts) != self.num_features',
+   modifies=['self.arm_to_model[arm]'],
+   ensures=['[C02,unobserved] implies(cnt(decisions, arm) == 0, %s)'
+            % ' and '.join('%s == old(%s)' % (MV(f, 'arm'), MV(f, 'arm'))
+                           for f in ('A', 'A_inv', 'Xty', 'beta', 'scaler', '#rng_shared', '#rng_state')),
+            # C02: the arm's model is updated with exactly the rows whose decision is that arm
+            '[C02,C06,arm.A] implies(cnt(decisions, arm) > 0, %s == madd(old(%s), gram(%s)))' % (MV('A', 'arm'), MV('A', 'arm'), XSA),
+            '[C02,arm.Ainv] implies(cnt(decisions, arm) > 0, %s == minv(%s))' % (MV('A_inv', 'arm'), MV('A', 'arm')),
+            '[C02,C06,arm.Xty] implies(cnt(decisions, arm) > 0, %s == vadd(old(%s), xty(%s, %s)))'
+            % (MV('Xty', 'arm'), MV('Xty', 'arm'), XSA, SELY),
+            '[C02,arm.beta] implies(cnt(decisions, arm) > 0, %s == matvec(%s, %s))'
+            % (MV('beta', 'arm'), MV('A_inv', 'arm'), MV('Xty', 'arm')),
+            '[cfg] %s == self.l2_lambda and %s == self.alpha and %s == self.scale'
+            % (MV('l2_lambda', 'arm'), MV('alpha', 'arm'), MV('scale', 'arm')),
+            '[shape] ' + MODEL_SHAPE.replace('"), ', '"), ').replace("val(self.arm_to_model, a,", "val(self.arm_to_model, arm,"),
+            '[scaler] is_none(%s) == (not self.scale)' % MV('scaler', 'arm'),
+            # a model that has seen data owns a private copy of its generator (deepcopy of the model)
+            '[C05,C07,rng.private] implies(cnt(decisions, arm) > 0, not %s)' % MV('#rng_shared', 'arm')])
+
+LIN_FIT_PARAMS = {'decisions': 'aseq', 'rewards': 'rseq', 'contexts': 'mat'}
+SELXA = 'selrows(contexts, decisions, a)'
+SELYA = 'sel(rewards, decisions, a)'
+D_ = 'cols(contexts)'
+# a model fitted from scratch on the rows of arm a (C02: (X'X + lambda I)^-1 X'y; C07: a function of the new data only)
+SC0 = 'scaler_fix(scaler_fit(%s))' % SELXA
+XS0 = '(%s if not self.scale else scaler_transform(%s, %s))' % (SELXA, SC0, SELXA)
+A0 = 'madd(smul(self.l2_lambda, ident(%s)), gram(%s))' % (D_, XS0)
+XTY0 = 'vadd(zeros(%s), xty(%s, %s))' % (D_, XS0, SELYA)
+fn('linear._Linear.fit', props='C02 C06 C07 C08 C20',
+   params=LIN_FIT_PARAMS,
+   requires=['INV.keys', 'INV.arms', 'INV.cfg', 'rows(contexts) == slen(decisions)', 'slen(decisions) == slen(rewards)',
+             'cols(contexts) >= 1', 'slen(self.arms) > 0'],
+   modifies=['self.num_features', 'self.arm_to_model[*]', 'self.arm_to_status'],
+   ensures=['INV', '[C07,fresh.d] self.num_features == cols(contexts)',
+            '[C02,C07,fresh.unobserved] ' + forall_arms(
+                'implies(cnt(decisions, a) == 0, %s == smul(self.l2_lambda, ident(%s)) and %s == zeros(%s) and %s == zeros(%s))'
+                % (MV('A'), D_, MV('Xty'), D_, MV('beta'), D_)),
+            '[C02,C07,fresh.A] ' + forall_arms('implies(cnt(decisions, a) > 0, %s == %s)' % (MV('A'), A0)),
+            '[C02,C07,fresh.Xty] ' + forall_arms('implies(cnt(decisions, a) > 0, %s == %s)' % (MV('Xty'), XTY0)),
+            '[C02,C07,fresh.solution] ' + forall_arms('implies(cnt(decisions, a) > 0, %s == minv(%s) and %s == matvec(%s, %s))'
+                                                      % (MV('A_inv'), MV('A'), MV('beta'), MV('A_inv'), MV('Xty'))),
+            '[C07,C13,fresh.status] ' + STATUS_AFTER_FIT,
+            # C07 for LinTS: which generator a model draws from must not depend on earlier fits (known finding D6)
+            '[C07,fresh.rng] implies(self.regression == "ts", ' +
+            forall_arms('%s == (cnt(decisions, a) == 0)' % MV('#rng_shared')) + ')'])
+
+SCP = ('scaler_fix(scaler_partial_fit(old(%s), %s) if scaler_fitted(old(%s)) else scaler_fit(%s))'
+       % (MV('scaler'), SELXA, MV('scaler'), SELXA))
+XSP = '(%s if not self.scale else scaler_transform(%s, %s))' % (SELXA, SCP, SELXA)
+fn('linear._Linear.partial_fit', props='C02 C06 C08 C17 C20',
+   params=LIN_FIT_PARAMS,
+   requires=['INV', 'not is_none(self.num_features)', 'rows(contexts) == slen(decisions)',
+             'slen(decisions) == slen(rewards)', 'slen(self.arms) > 0'],
+   raises=['ValueError'],
+   modifies=['self.arm_to_model[*]', 'self.arm_to_status[*]'],
+   ensures=['INV',
+            '[C02,C06,acc.unobserved] ' + forall_arms('implies(cnt(decisions, a) == 0, %s)' % ' and '.join(
+                '%s == old(%s)' % (MV(f), MV(f)) for f in ('A', 'A_inv', 'Xty', 'beta', 'scaler', '#rng_shared', '#rng_state'))),
+            '[C02,C06,acc.A] ' + forall_arms('implies(cnt(decisions, a) > 0, %s == madd(old(%s), gram(%s)))'
+                                             % (MV('A'), MV('A'), XSP)),
+            '[C02,C06,acc.Xty] ' + forall_arms('implies(cnt(decisions, a) > 0, %s == vadd(old(%s), xty(%s, %s)))'
+                                               % (MV('Xty'), MV('Xty'), XSP, SELYA)),
+            '[C02,C06,acc.solution] ' + forall_arms('implies(cnt(decisions, a) > 0, %s == minv(%s) and %s == matvec(%s, %s))'
+                                                    % (MV('A_inv'), MV('A'), MV('beta'), MV('A_inv'), MV('Xty'))),
+            '[C13,acc.status] ' + STATUS_AFTER_PARTIAL])
